@@ -860,6 +860,13 @@ def expr_shape(body, op, depth=0, repo_pred=None):
             if d and d[1] != "term" and d[2]["r"]["k"] == "bin" and d[2]["r"]["op"].endswith("WithOverflow"):
                 r = d[2]["r"]
                 return _node(r["op"][:-len("WithOverflow")], [expr_shape(body, r["a"], depth + 1, repo_pred), expr_shape(body, r["b"], depth + 1, repo_pred)])
+        # `(opt as Some).0` of a checked operation: `let Some(end) = a.checked_add(b) else { .. }` is a + b on the path that goes on
+        if len(pr) == 2 and isinstance(pr[0], dict) and pr[0].get("v") == "Some" and isinstance(pr[1], dict) and pr[1].get("i") == 0:
+            d = single_def(body, p["l"])
+            if d and d[1] == "term" and d[2]["k"] == "call":
+                m = re.search(r"::checked_(add|sub|mul)$", d[2].get("f", ""))
+                if m:
+                    return _node({"add": "Add", "sub": "Sub", "mul": "Mul"}[m.group(1)], [expr_shape(body, a, depth + 1, repo_pred) for a in d[2]["args"]])
         return "in"
     l = p["l"]
     if 1 <= l <= body.argc:
